@@ -81,7 +81,7 @@ def run(ctx):
             want = [(['class ~ amq_protocol::protocol::AMQPClass::%s(_)' % cls.capitalize(), 'class.%s.0 ~ amq_protocol::protocol::%s::AMQPMethod::%s(_)' % (cls.capitalize(), cls, meth)],
                      'Ok(class.%s.0.%s.0)' % (cls.capitalize(), meth)),
                     (['class ~ not amq_protocol::protocol::AMQPClass::%s(amq_protocol::protocol::%s::AMQPMethod::%s(_))' % (cls.capitalize(), cls, meth)], 'Err(errors::Error::FrameUnexpected)')]
-            r.eq('try_from:%s::%s' % (cls, meth), got, want, ctx.site(p), why='a reply of another type must be rejected, the right one unwrapped')
+            r.eq('try_from:%s::%s' % (cls, meth), sorted(got), sorted(want), ctx.site(p), why='a reply of another type must be rejected, the right one unwrapped')
         r.check('try_from-impls', n >= 22, None, built=n, expected='22 on the pinned tree; every impl is judged by its own row above')
 
     with ctx.rule('R04.3', 'each synchronous operation awaits the paired reply and returns exactly its fields', floor=60) as r:
